@@ -680,6 +680,14 @@ func (rr *rcRun) runBSISequence(rng *rand.Rand, steps int) {
 				rr.fail([]string{"C14", "C07", "C28"}, "value-after:"+op, fmt.Sprintf("value(%d) = (%d,%v), model (%d,%v)", c, v, ok, mv, mok))
 			}
 		}
+		// every bit-slice row through the cached read path against storage (C07: a write
+		// is reflected in row reads, whatever was cached before it)
+		for rowID := uint64(0); rowID <= depth+1; rowID++ {
+			cached, fresh := f.row(rowID).Columns(), f.rowFromStorage(rowID).Columns()
+			if !(len(cached) == 0 && len(fresh) == 0) && !reflect.DeepEqual(cached, fresh) {
+				rr.fail([]string{"C07", "C28"}, "bsi-row-read-after:"+op, fmt.Sprintf("row(%d) of the BSI fragment = %v, storage holds %v", rowID, cached, fresh))
+			}
+		}
 		// range queries for every operator and a sweep of predicates inside the bit depth
 		ops := []struct {
 			tok pql.Token
